@@ -67,6 +67,7 @@ class LoopSpec:
         self.inv, self.unroll, self.variant, self.tags, self.extra_havoc = inv, unroll, variant, tags, extra_havoc
         self.hints = hints      # proof hints: each is proved (given the earlier ones), then assumed
         self.split = None       # optional case split of the step obligations: fn(cx_end, cx_begin) -> [(label, cond)]
+        self.exit_effect = None # fn(cx) run on the state that leaves the loop (ghost bookkeeping)
         self.defs = None        # unfolding instances of spec-function definitions: fn(cx_end, cx_begin) -> [formula] (assumed)
 
 
@@ -1261,6 +1262,13 @@ class Exec:
             return l
         # 1. contract supplied by the unit's spec
         use = self.calls.get(q) if self.calls else None
+        if use is None and self.calls and (method or rd.get('name')):
+            rc = self.recv_class(objn) if objn is not None else ''
+            nm = method or rd.get('name')
+            for key in (f'{rc}::{nm}/{len(argn)}', f'{rc}::{nm}', f'{nm}/{len(argn)}', nm):
+                if key in self.calls:
+                    use = self.calls[key]
+                    break
         if use is not None:
             r = use(self, n, st, objn, argn)
             return self.as_lv(r) if want_lv else self.as_rv(r, st)
@@ -1311,6 +1319,16 @@ class Exec:
                 if f.get('previousDecl') == rd.get('id') or f.get('id') == rd.get('id'):
                     return f
         return None
+
+    @staticmethod
+    def recv_class(objn):
+        import re
+        t = objn.get('type', {}).get('desugaredQualType') or objn.get('type', {}).get('qualType', '')
+        m = re.search(r'(?:vfps::)?([A-Z][A-Za-z0-9_]*)(?=[ ,>*&]|$)', t.replace('std::', '').replace('__gnu_cxx::', ''))
+        m2 = re.findall(r'vfps::([A-Za-z0-9_]+)', t)
+        if m2:
+            return m2[-1] if 'shared_ptr' in t or 'unique_ptr' in t else m2[0]
+        return m.group(1) if m else t
 
     aux_tus = None
 
@@ -1785,6 +1803,8 @@ class Exec:
                 vt1 = spec.variant(cx2)
                 self.oblig(s2, f'decreases.{key}', z3.And(vt0 >= 0, vt1 < vt0), 'decreases', tags)
         e = h.copy(); e.assume(z3.Not(c))
+        if spec.exit_effect:
+            spec.exit_effect(Ctx(self, e, self.entry, self.args0))
         outs = [(e, None)]
         for s2 in brk:
             outs = self.join(s2.pc[-1], st, [(s2, None)], outs)
